@@ -869,7 +869,31 @@ fn amax_of(rng: &mut Rng) -> f64 {
     *rng.choose(&[1.0, 1.0, 0.99, 0.5, 0.25, 1e-3, 0.7310585786300049])
 }
 fn mags(rng: &mut Rng) -> f64 {
-    if rng.bool(0.4) { 1.0 } else { 10f64.powf(rng.uniform(-6.0, 6.0)) }
+    if rng.bool(0.4) { 1.0 } else { 10f64.powf(rng.uniform(-12.0, 12.0)) }
+}
+/// joint scaling of (point, direction): same factor, two different factors, or none.
+/// Cones are scale invariant, so thresholds that are not (e.g. comparing a squared
+/// quantity against machine epsilon) show up only when both are jointly tiny / huge.
+fn joint_scale(rng: &mut Rng) -> (f64, f64) {
+    match rng.below(6) {
+        0..=2 => {
+            let f = 10f64.powf(rng.uniform(-12.0, 12.0));
+            (f, f)
+        }
+        3 => (10f64.powf(rng.uniform(-12.0, 12.0)), 10f64.powf(rng.uniform(-12.0, 12.0))),
+        _ => (1.0, 1.0),
+    }
+}
+fn scaled(v: &[f64], f: f64) -> Vec<f64> {
+    v.iter().map(|t| t * f).collect()
+}
+/// scale an interior SOC point and keep it interior in floating point
+fn scaled_soc_point(v: &[f64], f: f64) -> Vec<f64> {
+    let mut x = scaled(v, f);
+    while !(x[0] > nrm(&x[1..])) {
+        x[0] *= 1.0 + 1e-15;
+    }
+    x
 }
 
 fn soc_interior(rng: &mut Rng, n: usize, delta: f64, mag: f64) -> Vec<f64> {
@@ -932,6 +956,12 @@ fn soc_integer_cases(s: &mut Session) {
             }
         }
     }
+    // jointly tiny / huge point and direction (scale-dependent thresholds): true step 1/3
+    for f in [1e-9, 1e-12, 1e9, 2f64.powi(-30), 2f64.powi(-40), 2f64.powi(35)] {
+        s.submit(Line::new("soc.step_length_component").fs("x", &[2.0 * f, f, 0.0]).fs("y", &[0.0, 3.0 * f, 0.0]).f("amax", 1.0).done());
+        s.submit(Line::new("soc.step_length_component").fs("x", &[3.0 * f, 0.0, -f]).fs("y", &[-f, 2.0 * f, 2.0 * f]).f("amax", 1.0).done());
+        s.submit(Line::new("soc.step_length_component").fs("x", &[2.0 * f, f]).fs("y", &[f, -3.0 * f]).f("amax", 1.0).done());
+    }
     // x exactly on the boundary (c = 0): outside the property's quantifier, correspondence only
     for (t0, t1) in tails.iter() {
         let x = [*t0, t1[0], t1[1]];
@@ -975,6 +1005,9 @@ fn gen_nn(s: &mut Session) {
     let sv = mk_pos(&mut s.rng);
     let dz = mk_dir(&mut s.rng, &z);
     let ds = mk_dir(&mut s.rng, &sv);
+    let (fz, fdz) = joint_scale(&mut s.rng);
+    let (fs, fds) = joint_scale(&mut s.rng);
+    let (z, dz, sv, ds) = (scaled(&z, fz), scaled(&dz, fdz), scaled(&sv, fs), scaled(&ds, fds));
     let amax = amax_of(&mut s.rng);
     s.submit(Line::new("nn.step_length").fs("dz", &dz).fs("ds", &ds).fs("z", &z).fs("s", &sv).f("amax", amax).done());
     if s.rng.bool(0.03) {
@@ -999,11 +1032,17 @@ fn gen_soc(s: &mut Session) {
     let n = 2 + s.rng.below(11);
     let d1 = *s.rng.choose(&[1e-8, 1e-5, 1e-2, 0.1, 0.5, 1.0, 10.0]);
     let d2 = *s.rng.choose(&[1e-8, 1e-5, 1e-2, 0.1, 0.5, 1.0, 10.0]);
-    let (m1, m2) = (mags(&mut s.rng), mags(&mut s.rng));
+    let unit = s.rng.bool(0.5);
+    let (m1, m2) = if unit { (1.0, 1.0) } else { (mags(&mut s.rng), mags(&mut s.rng)) };
     let z = soc_interior(&mut s.rng, n, d1, m1);
     let sv = soc_interior(&mut s.rng, n, d2, m2);
     let dz = soc_direction(&mut s.rng, &z);
     let ds = soc_direction(&mut s.rng, &sv);
+    // joint scaling of (point, direction)
+    let (fz, fdz) = joint_scale(&mut s.rng);
+    let (fs, fds) = joint_scale(&mut s.rng);
+    let (z, dz) = (scaled_soc_point(&z, fz), scaled(&dz, fdz));
+    let (sv, ds) = (scaled_soc_point(&sv, fs), scaled(&ds, fds));
     let amax = amax_of(&mut s.rng);
     s.submit(Line::new("soc.step_length").fs("dz", &dz).fs("ds", &ds).fs("z", &z).fs("s", &sv).f("amax", amax).done());
     s.submit(Line::new("soc.step_length_component").fs("x", &z).fs("y", &dz).f("amax", amax).done());
@@ -1013,6 +1052,11 @@ fn gen_soc(s: &mut Session) {
     xi[0] = xi[1..].iter().map(|v| v.abs()).sum::<f64>() + s.rng.range(1, 3) as f64;
     let yi: Vec<f64> = (0..k).map(|_| s.rng.smallint(4)).collect();
     s.submit(Line::new("soc.step_length_component").fs("x", &xi).fs("y", &yi).f("amax", amax).done());
+    // the same data scaled by an exact power of two (a, b, c stay exact; the cone is scale
+    // invariant, so the step must not change)
+    let p2 = 2f64.powi(s.rng.range(-40, 40) as i32);
+    let q2 = if s.rng.bool(0.7) { p2 } else { 2f64.powi(s.rng.range(-40, 40) as i32) };
+    s.submit(Line::new("soc.step_length_component").fs("x", &scaled(&xi, p2)).fs("y", &scaled(&yi, q2)).f("amax", amax).done());
     // margins / shift / unit init
     let m = mags(&mut s.rng);
     let v: Vec<f64> = (0..n).map(|_| s.rng.normal() * m).collect();
@@ -1156,12 +1200,14 @@ fn gen_composite(s: &mut Session) {
                 let n = 1 + s.rng.below(4);
                 kinds.push(1);
                 dims.push(n);
+                let (fz, fdz) = joint_scale(&mut s.rng);
+                let (fs, fds) = joint_scale(&mut s.rng);
                 for _ in 0..n {
                     let (a, b) = (10f64.powf(s.rng.uniform(-2.0, 2.0)), 10f64.powf(s.rng.uniform(-2.0, 2.0)));
-                    z.push(a);
-                    sv.push(b);
-                    dz.push(if s.rng.bool(0.3) { -a * s.rng.uniform(0.5, 3.0) } else { s.rng.normal() });
-                    ds.push(if s.rng.bool(0.3) { -b * s.rng.uniform(0.5, 3.0) } else { s.rng.normal() });
+                    z.push(a * fz);
+                    sv.push(b * fs);
+                    dz.push(fdz * if s.rng.bool(0.3) { -a * s.rng.uniform(0.5, 3.0) } else { s.rng.normal() });
+                    ds.push(fds * if s.rng.bool(0.3) { -b * s.rng.uniform(0.5, 3.0) } else { s.rng.normal() });
                 }
             }
             2 => {
@@ -1173,10 +1219,12 @@ fn gen_composite(s: &mut Session) {
                 let b = soc_interior(&mut s.rng, n, d, 1.0);
                 let da = soc_direction(&mut s.rng, &a);
                 let db = soc_direction(&mut s.rng, &b);
-                z.extend(a);
-                sv.extend(b);
-                dz.extend(da);
-                ds.extend(db);
+                let (fz, fdz) = joint_scale(&mut s.rng);
+                let (fs, fds) = joint_scale(&mut s.rng);
+                z.extend(scaled_soc_point(&a, fz));
+                sv.extend(scaled_soc_point(&b, fs));
+                dz.extend(scaled(&da, fdz));
+                ds.extend(scaled(&db, fds));
             }
             _ => {
                 let al = if s.rng.bool(0.5) { -1.0 } else { *s.rng.choose(&[0.5, 0.3]) };
